@@ -5,6 +5,7 @@ derived value must equal the value reported by a mesh freshly built from copies 
 same explicit overrides (density, centre of mass).  The only difference between both sides is the history."""
 
 import copy as pycopy
+import zlib
 
 import numpy as np
 from hypothesis import strategies as st
@@ -104,6 +105,10 @@ def scale_of(m):
 def compare(m, overrides, names, where, last_mut, warm, vn_atol=1e-9):
     f = fresh_of(m, overrides)
     s = scale_of(m)
+    # the order in which values are asked for is part of the history: vary it deterministically (a value read first
+    # meets the object exactly as the mutator left it)
+    names = list(names)
+    np.random.RandomState(zlib.crc32(repr((where, last_mut, len(names))).encode()) & 0x7FFFFFFF).shuffle(names)
     for name in names:
         a = mv.read(m, name)
         b = mv.read(f, name)
@@ -465,7 +470,7 @@ def mutator(draw):
 def history(draw):
     ops = []
     n = draw(st.integers(2, 10))
-    names = st.lists(st.sampled_from(mv.MEDIUM), min_size=1, max_size=6, unique=True)
+    names = st.lists(st.sampled_from(mv.MEDIUM + ["ray_first", "ray_any", "ray_hits", "contains", "ray_first", "ray_any"]), min_size=1, max_size=6, unique=True)
     for _ in range(n):
         t = draw(st.sampled_from(["read", "read", "check", "mut", "mut", "mut", "mut", "hold", "write_held", "there_and_back"]))
         if t == "there_and_back":
@@ -495,6 +500,17 @@ DEPTH1_STARTS = [
 DEPTH1_STARTS.append({"mesh": {"parts": [{"kind": "icos", "sub": 1}], "jseed": 7, "jamp": 0.03}, "drop": [5, 23, 60], "ctor_normals": False})
 
 
+def ray_first_cases():
+    """an accelerated query, then an edit that goes around apply_transform, then the same kind of query FIRST"""
+    edits = [["edit_vertex", 1, [0.4, 0.3, -0.2]], ["scale_inplace", 2.0], ["flip_face", 0], ["assign_vertices", 2.0, [1.0, 0.0, 0.0]], ["update_faces", "bool", 1],
+             ["translate", [0.5, 0.25, -1.0]], ["scale", 2.0], ["invert"]]
+    for start in DEPTH1_STARTS[:3]:
+        for pre in (["ray_first"], ["ray_any"], ["ray_hits"], ["contains"], ["nearest"], ["kdtree"], ["ray_first", "nearest"]):
+            for e in edits:
+                for post in (["ray_first"], ["ray_any"], ["ray_hits"], ["contains"], ["nearest"], ["signed_distance"]):
+                    yield {"start": start, "ops": [["read", pre], e, ["check", post]], "final": "MEDIUM"}
+
+
 def there_and_back_cases():
     """cold object (constructed / copied / moved, nothing read), edit, read, exact inverse edit, read again"""
     for start in DEPTH1_STARTS[:3]:
@@ -520,6 +536,11 @@ def depth1_mutators():
     A = np.diag([1.0, 2.0, 0.5, 1.0])
     S = np.eye(4)
     S[0, 1] = 0.7
+    K1 = np.eye(4)
+    K1[:3, :3] = np.eye(3) + 0.5 * (np.ones((3, 3)) - np.eye(3))
+    K2 = np.eye(4)
+    K2[:3, :3] = 2.0 * gm.rodrigues([1, 2, 3], 0.9) @ (np.eye(3) - 0.3 * (np.ones((3, 3)) - np.eye(3))) @ np.diag([1.0, 1.0, -1.0])
+    K2[:3, 3] = [1.0, -2.0, 0.5]
     out = [
         ["transform", {"cls": "rotation", "M": _rot([1, 2, 3], 0.8).tolist()}],
         ["transform", {"cls": "rigid", "M": _rot([0, 0, 1], np.pi / 2, (1, 2, 3)).tolist()}],
@@ -531,6 +552,9 @@ def depth1_mutators():
         ["transform", {"cls": "anisotropic", "M": A.tolist()}],
         ["transform", {"cls": "anisotropic", "M": (_rot([1, 2, 3], 0.5) @ A).tolist()}],
         ["transform", {"cls": "shear", "M": S.tolist()}],
+        # skew bases whose columns all have the same length (not conformal)
+        ["transform", {"cls": "general_affine", "M": K1.tolist()}],
+        ["transform", {"cls": "general_affine", "M": K2.tolist()}],
         ["scale", 2.0],
         ["scale", -1.0],
         ["scale", [1.0, 2.0, 3.0]],
@@ -626,6 +650,11 @@ def held_view_cases():
 @subcheck("C01", "held_views", shards={"quick": 6, "thorough": 8})
 def s_held(ctx):
     ctx.enumerate("C01.history", held_view_cases(), label="held_view_chains_x_warm_sets_and_edit_then_copy")
+
+
+@subcheck("C01", "accelerated_query_first", shards={"quick": 4, "thorough": 4})
+def s_rayfirst(ctx):
+    ctx.enumerate("C01.history", ray_first_cases(), label="query_x_edit_x_query_read_first")
 
 
 @subcheck("C01", "there_and_back", shards={"quick": 4, "thorough": 4})
